@@ -79,8 +79,10 @@ func VerifyG1(publicKey *bn256.G2, message *bn256.G1, signature *bn256.G1) bool 
 // signature shares using Lagrange interpolation.
 func RecoverSignature(shares []*SignatureShare, threshold int) (*bn256.G1, error) {
 
-	// Indexes of participants that have valid shares.
+	// Indexes of participants that have valid shares and, at the same
+	// positions, their shares.
 	var validParticipants []*big.Int
+	var validShares []*SignatureShare
 
 	// Get sufficient number of participants with valid shares.
 	for _, s := range shares {
@@ -91,6 +93,7 @@ func RecoverSignature(shares []*SignatureShare, threshold int) (*bn256.G1, error
 			continue
 		}
 		validParticipants = append(validParticipants, big.NewInt(int64(s.I)))
+		validShares = append(validShares, s)
 	}
 
 	if len(validParticipants) < threshold {
@@ -104,7 +107,7 @@ func RecoverSignature(shares []*SignatureShare, threshold int) (*bn256.G1, error
 	result := new(bn256.G1)
 	for i := range validParticipants {
 		basis := lagrangeBasis(i, validParticipants)
-		result.Add(result, new(bn256.G1).ScalarMult(shares[i].V, basis))
+		result.Add(result, new(bn256.G1).ScalarMult(validShares[i].V, basis))
 	}
 
 	return result, nil
@@ -134,8 +137,10 @@ func (s *SecretKeyShare) PublicKeyShare() *PublicKeyShare {
 // public key shares using Lagrange interpolation.
 func RecoverPublicKey(shares []*PublicKeyShare, threshold int) (*bn256.G2, error) {
 
-	// Indexes of participants that have valid shares.
+	// Indexes of participants that have valid shares and, at the same
+	// positions, their shares.
 	var validParticipants []*big.Int
+	var validShares []*PublicKeyShare
 
 	// Get sufficient number of participants with valid shares.
 	for _, s := range shares {
@@ -143,6 +148,7 @@ func RecoverPublicKey(shares []*PublicKeyShare, threshold int) (*bn256.G2, error
 			continue
 		}
 		validParticipants = append(validParticipants, big.NewInt(int64(s.I)))
+		validShares = append(validShares, s)
 		if len(validParticipants) == threshold {
 			break
 		}
@@ -157,7 +163,7 @@ func RecoverPublicKey(shares []*PublicKeyShare, threshold int) (*bn256.G2, error
 	for i := range validParticipants {
 		basis := lagrangeBasis(i, validParticipants)
 
-		result.Add(result, new(bn256.G2).ScalarMult(shares[i].V, basis))
+		result.Add(result, new(bn256.G2).ScalarMult(validShares[i].V, basis))
 	}
 
 	return result, nil
